@@ -68,7 +68,7 @@ def fmt_e(x, width, decimals, upper):
 # ------------------------------------------------------------------------------------------------------------
 def make_model(gen):
     """gen: {'fseed': str, 'nst': int, 'nsol': 1..3, 'vel': bool, 'tri': 'L'|'U', 'expo': 'e'|'E',
-             'agency': str, 'dagency': str, 'cstyle': 'star'|'blank'|'none', 'zero': 'dense'|'groups'}"""
+             'agency': str, 'dagency': str, 'cstyle': 'star'|'blank'|'none', 'zero': 'dense'|'groups'|'sparse'}"""
     rnd = random.Random(gen['fseed'])
     upper = gen.get('expo', 'e') == 'E'
     nst, nsol, vel = int(gen['nst']), int(gen['nsol']), bool(gen['vel'])
@@ -125,6 +125,16 @@ def make_model(gen):
             A = rs.randn(len(idx), len(idx))
             B = A @ A.T * 1e-6 + np.eye(len(idx)) * 1e-8
             Q[np.ix_(idx, idx)] = B
+    elif gen.get('zero', 'dense') == 'sparse':
+        # isolated exact zeros anywhere in the triangle (lines with one or two zero values among non-zero ones);
+        # positive definite by strict diagonal dominance (Gershgorin)
+        d = np.array([rnd.uniform(1e-6, 4e-6) for _ in range(npar)])
+        off = 1e-6 / (2.0 * max(npar, 1))
+        Q = np.diag(d)
+        for i in range(npar):
+            for j in range(i):
+                if rnd.random() < 0.5:
+                    Q[i, j] = Q[j, i] = rnd.choice([-1.0, 1.0]) * rnd.uniform(0.05, 0.95) * off
     else:
         A = rs.randn(npar, npar)
         Q = A @ A.T * 1e-6 + np.eye(npar) * 1e-8
@@ -488,7 +498,9 @@ def selfcheck():
     for gen in ({'fseed': 'selfcheck-1', 'nst': 4, 'nsol': 2, 'vel': True, 'tri': 'U', 'expo': 'E', 'agency': 'VIC',
                  'dagency': 'IGS', 'cstyle': 'blank', 'zero': 'groups'},
                 {'fseed': 'selfcheck-2', 'nst': 3, 'nsol': 1, 'vel': False, 'tri': 'L', 'expo': 'e', 'agency': 'AUS',
-                 'dagency': 'NSV', 'cstyle': 'none', 'zero': 'dense'}):
+                 'dagency': 'NSV', 'cstyle': 'none', 'zero': 'dense'},
+                {'fseed': 'selfcheck-3', 'nst': 5, 'nsol': 3, 'vel': True, 'tri': 'L', 'expo': 'e', 'agency': 'COD',
+                 'dagency': 'IGS', 'cstyle': 'star', 'zero': 'sparse'}):
         mm = make_model(gen)
         p = parse(write_text(mm))
         if p.problems or not p.trailer_ok:
